@@ -188,7 +188,8 @@ func (v *Value) Swap(new any) (old any) {
 func (v *Value) CompareAndSwap(old, new any) (swapped bool) {
 	v.checkNew("compare and swap", new)
 
-	if !(v.v == nil && old == nil) && !sameType(old, new) {
+	// A nil old value only says that nothing is expected to be stored yet.
+	if old != nil && !sameType(old, new) {
 		panic("sync/atomic: compare and swap of inconsistently typed values into Value")
 	}
 
